@@ -188,6 +188,8 @@ func scenC19(w *vsim.World, spec *vsim.Spec) {
 	rnd := w.NewRand("gen")
 	nRemotes := w.Range("remotes", 1, 4)
 	tt := &tokenTable{}
+	// the controller's own database lookup of a legacy token may fail while the request is being handled
+	tt.failAt = int32(w.Choose("database-query-fails", 4))
 	cfg := fedConfig{
 		remotes:  allRemoteIDs[:nRemotes],
 		legacy:   w.Chance("force-legacy-api14", 400),
